@@ -79,6 +79,7 @@ static long last_nsuper_of_lsub; static long thread_begin, thread_end, sched_cal
 static long max_qtail; static case_t *cur_case; static int cb_on;
 static __thread unsigned long tl_rng; static __thread int tl_init; static __thread long tl_last_nsuper = -1;
 static long *lsub_start; /* per supernode number: start of its subscript region */
+static long *piv_count;  /* per column: pivot searches finished */
 static long *init_map; static long init_map_n = -1, init_nzlumax = -1; static int init_dynamic = 0;   /* snapshot of Glu->map_in_sup */
 static long *dyn_end;   /* dynamic mode: end of the slot of the H-supernode led by column j */
 static long slot_overrun_by, lusup_allocs, max_lusup_end;
@@ -121,6 +122,7 @@ static void verif_cb(int ev, long pnum, long a, long b, long c, const void *p)
         }
         break;
     case SLU_VEV_PIVOT_OUT:
+        if (a >= 0 && a < cb_n && piv_count) __sync_fetch_and_add(&piv_count[a], 1);
         if (cur_case && (cur_case->trace & 2) && tl_piv.rows) {
             tl_piv.piv = b; tl_piv.usepr_out = c; tl_piv.pn = pnum; tl_piv.thresh = p ? (double) *(const REAL *) p : -1.0;
             pthread_mutex_lock(&evmu);
@@ -190,6 +192,21 @@ static void verif_cb(int ev, long pnum, long a, long b, long c, const void *p)
         if (nev < MAXEV) { evbuf[nev].ev = ev; evbuf[nev].pnum = pnum; evbuf[nev].a = a; evbuf[nev].b = b; evbuf[nev].c = c; nev++; }
         pthread_mutex_unlock(&evmu);
     }
+    /* targeted perturbation: a pipelined panel (busy descendants bcol..jcol-1) delays its symbolic step until the busy
+       descendants have made SOME progress (one or two more columns pivoted), at most 3 ms: the window in which a column
+       of a busy supernode is already pivoted while the supernode is not yet final */
+    if (ev == SLU_VEV_LBUSY && cur_case && cur_case->pprob > 0 && b >= 0 && b < a && a <= cb_n) {
+        long k, base = 0, now, want, spins = 0;
+        if (!tl_init) maybe_delay(pnum, ev);
+        tl_rng = tl_rng * 6364136223846793005UL + 1442695040888963407UL;
+        if (((tl_rng >> 33) & 0xff) < 180) {
+            for (k = b; k < a; ++k) base += piv_count[k];
+            want = base + 1 + (long) ((tl_rng >> 41) & 1);
+            do { struct timespec ts = {0, 20000}; nanosleep(&ts, NULL); now = 0; for (k = b; k < a; ++k) now += piv_count[k]; }
+            while (now < want && ++spins < 150);
+        }
+        return;
+    }
     /* schedule perturbation: outside any library lock except for SCHED (inside the scheduler lock: skip) */
     if (ev != SLU_VEV_SCHED && ev != SLU_VEV_ALLOC) maybe_delay(pnum, ev);
 }
@@ -201,6 +218,7 @@ static void cb_reset(case_t *c)
     cur_case = c; cb_n = c->n;
     free(rel_count); free(done_count); free(lsub_start);
     rel_count = (long *) calloc(c->n + 1, sizeof(long)); done_count = (long *) calloc(c->n + 1, sizeof(long));
+    free(piv_count); piv_count = (long *) calloc(c->n + 1, sizeof(long));
     lsub_start = (long *) malloc((c->n + 2) * sizeof(long)); for (i = 0; i <= c->n; ++i) lsub_start[i] = -1;
     free(init_map); free(dyn_end); init_map = (long *) calloc(c->n + 2, sizeof(long)); dyn_end = (long *) malloc((c->n + 2) * sizeof(long));
     for (i = 0; i <= c->n; ++i) dyn_end[i] = -1;
